@@ -114,8 +114,75 @@ def scenarios(tier, seed):
         for b in (0, 14, 15):
             out.append(("ids", name, depth, b))
     out += [("ids", name, 0, 0) for name in TIE_CONFIGS]
+    # many open orders on one pair (a grid / ladder strategy) next to another pair with the same timestamps, both short of
+    # funds at fill time: results must not depend on max_concurrent
+    for n0 in (1, 7, 99, 100, 101, 120, 250):
+        for n1 in (1, 10):
+            out.append(("ladder", n0, n1))
     out += [("explore", b) for b in base_scenarios(tier)]
     return out
+
+
+def run_ladder(sc, res):
+    _, n0, n1 = sc
+    PA, PB = bs.Pair("P0", "USD"), bs.Pair("P1", "USD")
+
+    def one(maxc, placing_pair):
+        d = bs.backtesting_dispatcher(max_concurrent=maxc)
+        # the holds are taken at the first price (10); the fills happen after a gap up, so only some orders can be paid for
+        funds = D(10) * (n0 + n1) + D(50)
+        e = ex.Exchange(d, {"USD": funds}, liquidity_strategy_factory=liquidity.InfiniteLiquidity)
+
+        def bars(pair, prices):
+            return [bs.BarEvent(T(t + 1), bs.Bar(T(t), pair, D(p), D(p), D(p), D(p), D(10 ** 6))) for t, p in enumerate(prices)]
+        idx = {}
+        fills = []
+        done = [False]
+
+        async def on_bar(ev):
+            if done[0]:
+                return
+            done[0] = True
+            for pair, n in ((PA, n0), (PB, n1)):
+                for _ in range(n):
+                    o = await e.create_market_order(bs.OrderOperation.BUY, pair, D(1))
+                    idx[o.id] = len(idx)
+
+        async def on_order(ev):
+            if ev.order.amount_filled:
+                fills.append((idx[ev.order.id], secs(ev.when), str(ev.order.amount_filled), str(ev.order.quote_amount_filled)))
+        e.add_bar_source(bs.FifoQueueEventSource(events=bars(PA, [10, 12, 12])))
+        e.add_bar_source(bs.FifoQueueEventSource(events=bars(PB, [10, 15, 15])))
+        e.subscribe_to_bar_events(placing_pair, on_bar)
+        e.subscribe_to_order_events(on_order)
+        out, exc, loop = run_on_vloop(lambda loop: d.run(stop_signals=[]), patch_clock=False)
+        bal = {k: (str(v.available), str(v.hold), str(v.borrowed)) for k, v in sorted(exch.call(e.get_balances()).items())}
+        orders = sorted((idx[o.id], str(o.amount_filled), str(o.quote_amount_filled), o.is_open) for o in exch.call(e.get_orders()))
+        return (out, repr(exc), bal, orders, sorted(fills))
+    for placing in (PA, PB):
+        ref = None
+        for maxc in MAXCS:
+            r = one(maxc, placing)
+            res.executions += 1
+            res.transitions += 1
+            res.outcomes[r[0]] += 1
+            res.states.add(h64(("ladder", n0, n1, str(placing), maxc, repr(r[2]))))
+            if r[4]:
+                res.nontrivial.add(h64(("ladder", n0, n1, str(placing), maxc)))
+            case = dict(kind="ladder", n0=n0, n1=n1, placing=str(placing), maxc=maxc)
+            if r[0] != "returned":
+                res.violation(f"{PROPERTY}:run-outcome:ladder", f"run ended with {r[0]} {r[1]}; {case}", case, size=n0 + n1)
+            if ref is None:
+                ref = (maxc, r)
+            elif r != ref[1]:
+                res.violation(f"{PROPERTY}:depends-on-max-concurrent:ladder",
+                              f"max_concurrent={ref[0]} fills {len(ref[1][4])} orders, balances {ref[1][2]}; max_concurrent={maxc} "
+                              f"fills {len(r[4])} orders, balances {r[2]}; {case}", case, size=n0 + n1)
+            else:
+                res.validated += 1
+    if not res.samples:
+        res.samples.append(dict(kind="ladder", n0=n0, n1=n1))
+    return res
 
 
 def make_run(base, maxc, states=None):
@@ -376,6 +443,8 @@ def run_ids(sc, res):
 
 def run_scenario(sc, tier):
     res = Result()
+    if sc[0] == "ladder":
+        return run_ladder(sc, res)
     if sc[0] == "ids":
         try:
             return run_ids(sc, res)
@@ -458,6 +527,10 @@ def _unj(b):
 
 
 def replay(rep):
+    if rep.get("kind") == "ladder":
+        res = Result()
+        run_ladder(("ladder", rep["n0"], rep["n1"]), res)
+        return [v["message"] for v in res.violations][:3]
     if rep.get("kind") == "ids":
         from checks import _exch_common as X
         from worlds import exch, exch_bfs
